@@ -34,11 +34,11 @@ MCDeleteStream(s) ==
   /\ Exists(s) /\ nDel < MaxDeletes /\ DoDeleteStream(s)
   /\ Step([a |-> "DeleteStream", s |-> s]) /\ nDel' = nDel + 1 /\ UNCHANGED nRes /\ taint' = taint \cup Taints
 MCCreateGroup(c, S, coord) ==
-  /\ ~GroupExists /\ S # {} /\ S \subseteq Existing /\ DoCreateGroup(c, S, coord)
+  /\ ~GroupExists /\ S # {} /\ DoProposeCreateGroup(c, S, coord)
   /\ Step([a |-> "CreateGroup", c |-> c, streams |-> SeqOf(S), coord |-> coord])
   /\ UNCHANGED <<nDel, nRes>> /\ taint' = taint \cup Taints
 MCJoin(c, S) ==
-  /\ GroupExists /\ c \notin Members(G) /\ S # {} /\ S \subseteq Existing /\ DoJoin(c, S)
+  /\ GroupExists /\ c \notin Members(G) /\ S # {} /\ DoProposeJoin(c, S)
   /\ Step([a |-> "Join", c |-> c, streams |-> SeqOf(S)]) /\ UNCHANGED <<nDel, nRes>> /\ taint' = taint \cup Taints
 \* how = "leave" | "expire": an expiry is the coordinator's liveness timer
 \* proposing the same operation
@@ -84,8 +84,9 @@ MCSpec == MCInit /\ [][MCNext]_mcvars
 StepOK ==
   LET a == last' IN
   CASE a.a = "GetAssignments" -> P_GetAssignments(a.srv, a.c, a.e)
-    [] a.a = "Join" -> P_Join(a.c, {a.streams[i] : i \in DOMAIN a.streams})
-    [] a.a = "CreateGroup" -> \A v \in Servers : gs'[v].exists /\ Members(gs'[v]) = {a.c}
+    [] a.a = "Join" -> IF obs'.err = "precondition" THEN SameGroups ELSE P_Join(a.c, {a.streams[i] : i \in DOMAIN a.streams})
+    [] a.a = "CreateGroup" -> IF obs'.err = "precondition" THEN SameGroups
+                              ELSE \A v \in Servers : gs'[v].exists /\ Members(gs'[v]) = {a.c}
     [] a.a = "Leave" -> P_Leave(a.c)
     [] a.a = "RunSD" -> P_RunSD(a.srv, [s |-> a.s, e |-> a.e])
     [] a.a = "Restore" -> P_Restore(a.srv)
